@@ -70,7 +70,9 @@ def gen(rng: random.Random, tier: str, idx: int) -> dict:
             "k_seed": rng.randrange(1 << 30),
             # a writer that died between its metadata write and the pointer flip: a never-committed v(N+1) file with one
             # more row exists next to the committed versions (legal state, C03) while the reads are damaged / failing
-            "dead_writer": mode == "transient" and rng.random() < 0.5}
+            "dead_writer": mode == "transient" and rng.random() < 0.5,
+            # one manifest entry as an older writer left it: no checksum recorded (the other files keep theirs)
+            "legacy_entry": mode == "damage" and rng.random() < 0.25}
 
 
 def shrink(plan: dict):
@@ -198,6 +200,9 @@ def execute(plan: dict, scratch: str, replay: Optional[dict] = None) -> dict:
             raise core.HarnessError("dead writer flipped the pointer")
         ph1.sim.probe("crash_orphan_present")
         ph0 = ph1
+    if plan.get("legacy_entry"):
+        plan["_stripped"] = _strip_first_checksum(ph0.world)
+        ph0.sim.probe("legacy_checksumless_entry")
     snap = common.Snapshot(ph0)
     st = ph0.world.state()
     files = _files(st)
@@ -224,6 +229,25 @@ def execute(plan: dict, scratch: str, replay: Optional[dict] = None) -> dict:
     res = common.merge_results(results, plan, f"{backend}/{plan['mode']}")
     common.shutil.rmtree(scratch, ignore_errors=True)
     return res
+
+
+def _strip_first_checksum(w: world.World) -> Optional[str]:
+    """Turn the first entry of the current snapshot's first manifest into what an older writer left behind: a manifest
+    entry WITHOUT a recorded checksum (the field is nullable).  Harness-level edit of the stored table."""
+    import fastavro
+    st = w.state(deep=True, rows=False)
+    mp = st.current().manifests[0]
+    view = w.view()
+    rd = fastavro.reader(io.BytesIO(view.read(mp)))
+    schema = rd.writer_schema
+    recs = list(rd)
+    if not recs:
+        return None
+    recs[0]["data_file"]["checksum"] = None
+    buf = io.BytesIO()
+    fastavro.writer(buf, schema, recs)
+    _apply(w, mp, buf.getvalue())
+    return w.view().canon(recs[0]["data_file"]["file_path"]) if hasattr(w.view(), "canon") else recs[0]["data_file"]["file_path"].lstrip("/")
 
 
 def _run_reads(ph: Phase, apis: List[dict], warm_then=None) -> List[dict]:
@@ -329,7 +353,10 @@ def _damage_case(plan, scratch, seed, snap, st, rows, count, case) -> dict:
         verify_on = not (op.get("verify") is False or op.get("env_verify_off"))
         reads_file = not (kind == "DATA" and api == "row_count")
         label = api + ("" if verify_on else "/noverify") + ("/cols" if op.get("columns") else "") + ("/filter" if op.get("filter") else "")
-        must_raise = reads_file and ((kind == "DATA" and verify_on) or not parses)
+        # (a file whose manifest entry records no checksum - the legacy entry - cannot be verified by anybody: for it only
+        #  unparseable damage must raise; every OTHER file's checksum must still be honoured)
+        verifiable = rel != plan.get("_stripped")
+        must_raise = reads_file and ((kind == "DATA" and verify_on and verifiable) or not parses)
         if rec["outcome"] == "raise":
             sim.probe("raised_closed")
             if must_raise:
